@@ -25,5 +25,6 @@ INVARIANT EvolvingBeforeAnyChange
 INVARIANT ExactlyOneTerminalSignal
 INVARIANT EvolvedIffSaved
 INVARIANT PairedUnlessFailed
+INVARIANT EndSignalsTruthful
 INVARIANT NoTerminalWithoutEvolving
 INVARIANT NoPartialAtRest
